@@ -15,7 +15,7 @@ CONSTANTS ZZero, ZOne, ZFromInt(_), ZToInt(_), ZSign(_), ZIsZero(_), ZNeg(_), ZA
           ZShl(_, _), ZShr(_, _), ZBitLen(_), ZTrailing(_), ZIsOdd(_),
           ZLowZero(_, _), ZBit(_, _), ZPow(_, _), ZPow2(_), ZDivFloor(_, _), ZMod(_, _),
           ZMk(_, _)
-INSTANCE DecPost
+INSTANCE Oblig
 
 F(j) == Mpf(j.s, ZMk(0, j.m), j.e, j.bc)
 Zj(j) == ZMk(j.s, j.m)
@@ -109,6 +109,9 @@ Post(ev) ==
     [] op = "from_str" -> PostFromStr(a[1].v, p, r, o)
     [] op = "repr" -> PostReprRoundTrip(Arg(a[1]), a[2].v, p)
     [] op = "nstr" -> PostNearestDigits(Arg(a[1]), a[2].v, ZToInt(Zj(a[3])))
+    [] op = "oblig" -> Holds(ev.x.j)
+    [] op = "exact_or_ulp" -> o.k = "f" /\ ExactOrUlp(o.v, ev.x.e, p)
+    [] op = "int_eq" -> o.k = "z" /\ LET v == Ev(ev.x.e, 0) IN ZCmp(v[2], ZOne) = 0 /\ ZCmp(o.v, v[1]) = 0
     [] op = "none" -> TRUE
 
 (*************************** C17 / C33: constants ***************************)
@@ -118,8 +121,9 @@ Post(ev) ==
 NewPrecReal(wp) == (wp * 105) \div 100 + 10
 ConstClauses(ev) ==
   LET x == ev.x  wp == ev.p + 20
-  IN (IF x.ma # (IF wp <= x.mb THEN x.mb ELSE NewPrecReal(wp)) THEN {"memo"} ELSE {})
-     \cup (IF F(ev.o) # F(x.scratch) THEN {"history"} ELSE {})
+  IN IF x.abort THEN (IF x.ma # x.mb \/ ~x.sameval THEN {"abort"} ELSE {})       \* ConstMemo!AbortSafe
+     ELSE (IF x.ma # (IF wp <= x.mb THEN x.mb ELSE NewPrecReal(wp)) THEN {"memo"} ELSE {})
+          \cup (IF F(ev.o) # F(x.scratch) THEN {"history"} ELSE {})
 (* "const5": the five modes at one precision: d = f, u = c (positive          *)
 (* constant), f <= n <= c, and c is f or its successor at precision p.        *)
 Const5Clauses(ev) ==
